@@ -12,6 +12,14 @@ Proof. intros H p. symmetry. apply H. Qed.
 Lemma EqSet_trans a b c : EqSet a b -> EqSet b c -> EqSet a c.
 Proof. intros H1 H2 p. rewrite (H1 p). apply H2. Qed.
 
+Lemma existsb_EqSet (f : pair -> bool) a b : EqSet a b -> existsb f a = existsb f b.
+Proof.
+  intro H. destruct (existsb f b) eqn:E.
+  - apply existsb_exists in E. destruct E as [x [Hx Fx]]. apply existsb_exists. exists x. split; trivial. now apply H.
+  - destruct (existsb f a) eqn:E2; trivial. apply existsb_exists in E2. destruct E2 as [x [Hx Fx]].
+    assert (existsb f b = true); [|congruence]. apply existsb_exists. exists x. split; trivial. now apply H.
+Qed.
+
 Lemma pair_eq_true a b : pair_eq a b = true <-> a = b.
 Proof.
   unfold pair_eq. rewrite andb_true_iff, !Nat.eqb_eq. destruct a, b; simpl. split.
